@@ -40,7 +40,8 @@
   Spec column: `class_of_char`, `interval_cover`, `class_of_set`, `good_char_set`, `try_from_list`
   are printed with the independent linear-scan specification of Model/Spec/CharPartition.lean
   (Props/C11 proves model = spec for well-formed partitions); the accessors are `okProved`
-  (theorems of Props/C11); `merge`, `merge_list` carry no spec value here (C12).
+  (theorems of Props/C11); `merge`, `merge_list` are `okProved` by Props/C12 (`FUEL` would mean
+  the model's iteration bound did not suffice: proved impossible for well-formed inputs).
 -/
 import Driver.Proto
 import Driver.FamCharSet
@@ -137,10 +138,12 @@ def handle (op : String) (args : List String) : Option Reply :=
       okSpec (pBool (p.goodCharSet s)) (pBool (CPSpec.goodCharSet p.list s))
   | "merge", [p, q] => do
       let p ← rCP p; let q ← rCP q
-      ok (match mergePartitions? p q with | some r => pCP r | none => "FUEL")
+      -- Props/C12 `merge_fuel_sufficient`: never `FUEL` for well-formed inputs
+      okProved (match mergePartitions? p q with | some r => pCP r | none => "FUEL")
   | "merge_list", [l] => do
       let l ← rCPs l
-      ok (match mergeList? l with | some r => pCP r | none => "FUEL")
+      -- Props/C12 `merge_list_fuel_sufficient`
+      okProved (match mergeList? l with | some r => pCP r | none => "FUEL")
   | _, _ => none
 
 end Driver.FamCharPartition
